@@ -103,7 +103,13 @@ func (u *User) PutArbitrary(m map[string]string) {
 		u.Arbitrary = map[string]string{}
 	}
 	for k, v := range m {
-		if k == "email" || k == "password" {
+		if k == "email" {
+			if !u.emailIsPID {
+				u.Email = v // username mode: the e-mail address is an ordinary registration field
+			}
+			continue
+		}
+		if k == "password" {
 			continue
 		}
 		u.Arbitrary[k] = v
